@@ -37,13 +37,13 @@ Inductive io (A : Type) : Type :=
 | Disc (n : Z) (k : rstat -> io A)              (* bufio.Reader.Discard n *)
 | Until0 (k : list Z -> rstat -> io A)          (* bufio.Reader.ReadBytes(0) *)
 | Peek2 (k : list Z -> rstat -> io A)           (* bufio.Reader.Peek(2) *)
-| Alloc (n snap : Z) (k : io A).                (* make([]byte, n); snap = declared snap length *)
+| Alloc (n snap blen : Z) (k : io A).           (* make([]byte, n); ghosts: declared snap length, remaining block length *)
 Arguments Ret {A} a.
 Arguments Rd {A} n k.
 Arguments Disc {A} n k.
 Arguments Until0 {A} k.
 Arguments Peek2 {A} k.
-Arguments Alloc {A} n snap k.
+Arguments Alloc {A} n snap blen k.
 
 Fixpoint iobind {A B} (m : io A) (f : A -> io B) : io B :=
   match m with
@@ -52,11 +52,11 @@ Fixpoint iobind {A B} (m : io A) (f : A -> io B) : io B :=
   | Disc n k => Disc n (fun st => iobind (k st) f)
   | Until0 k => Until0 (fun bs st => iobind (k bs st) f)
   | Peek2 k => Peek2 (fun bs st => iobind (k bs st) f)
-  | Alloc n sn k => Alloc n sn (iobind k f)
+  | Alloc n sn bl k => Alloc n sn bl (iobind k f)
   end.
 
 (* ---- flat streams: the bytes before the end, how the stream ends, allocation log *)
-Record fstream := mkF { fdata : list Z; flen : Z; ffail : bool; fallocs : list (Z * Z * Z) }.
+Record fstream := mkF { fdata : list Z; flen : Z; ffail : bool; fallocs : list (Z * Z * Z * Z) }.
 Definition fstream_of (d : list Z) (fail : bool) : fstream := mkF d (zlen d) fail [].
 Definition fend (s : fstream) : rstat := if ffail s then RsFail else RsEOF.
 Definition fdrain (s : fstream) : fstream := mkF [] 0 (ffail s) (fallocs s).
@@ -97,7 +97,7 @@ Fixpoint run_f {A} (p : io A) (s : fstream) : A * fstream :=
   | Disc n k => let '(s', st) := f_disc n s in run_f (k st) s'
   | Until0 k => let '(bs, s', st) := f_until0 s in run_f (k bs st) s'
   | Peek2 k => let '(bs, st) := f_peek2 s in run_f (k bs st) s
-  | Alloc n sn k => run_f k (mkF (fdata s) (flen s) (ffail s) ((n, sn, flen s) :: fallocs s))
+  | Alloc n sn bl k => run_f k (mkF (fdata s) (flen s) (ffail s) ((n, sn, bl, flen s) :: fallocs s))
   end.
 
 (* ---- chunked streams: what successive Read calls of the underlying io.Reader return *)
@@ -107,7 +107,7 @@ Fixpoint c_read (n : Z) (s : list event) : list Z * list event * rstat :=
   if n <=? 0 then ([], s, RsOk) else
   match s with
   | [] => ([], [], RsEOF)
-  | Fail :: t => ([], t, RsFail)
+  | Fail :: t => ([], Fail :: t, RsFail)     (* the error is sticky: every later Read fails again *)
   | Chunk l :: t =>
     if n <=? zlen l then (firstn (Z.to_nat n) l, Chunk (skipn (Z.to_nat n) l) :: t, RsOk)
     else let '(a, s', st) := c_read (n - zlen l) t in (l ++ a, s', st)
@@ -119,7 +119,7 @@ Definition c_disc (n : Z) (s : list event) : list event * rstat :=
 Fixpoint c_until0 (s : list event) : list Z * list event * rstat :=
   match s with
   | [] => ([], [], RsEOF)
-  | Fail :: t => ([], t, RsFail)
+  | Fail :: t => ([], Fail :: t, RsFail)
   | Chunk l :: t =>
     match split0 l with
     | Some (a, r) => (a, Chunk r :: t, RsOk)
@@ -144,7 +144,7 @@ Fixpoint run_c {A} (p : io A) (s : list event) : A * list event :=
   | Disc n k => let '(s', st) := c_disc n s in run_c (k st) s'
   | Until0 k => let '(bs, s', st) := c_until0 s in run_c (k bs st) s'
   | Peek2 k => let '(bs, st) := c_peek 2 s in run_c (k bs st) s
-  | Alloc n sn k => run_c k s
+  | Alloc n sn bl k => run_c k s
   end.
 
 (* the flat view of a chunked stream: bytes before the first Fail, and whether there is one *)
@@ -375,7 +375,7 @@ Definition s_disc (n : Z) : SM unit :=
   fun s => Disc n (fun st => match st with
                              | RsOk => Ret (set_blen s (u32 (r_blen s - n)), Ok tt)
                              | _ => Ret (s, Err (err_of st)) end).
-Definition s_alloc (n snap : Z) : SM unit := fun s => Alloc n snap (Ret (s, Ok tt)).
+Definition s_alloc (n snap : Z) : SM unit := fun s => Alloc n snap (r_blen s) (Ret (s, Ok tt)).
 (* fmt.Errorf("...: %w", err) (repaired tree): errors.Is still sees io.ErrUnexpectedEOF, so the
    class of a wrapped error is the class of the error *)
 Definition s_wrap {A} (m : SM A) : SM A := m.
